@@ -52,7 +52,13 @@ if confirmed:
         try:
             checks = {}
             for pr in prop.split(","):
+                # the evidence file of a run on a seeded tree must not replace the one of the unchanged tree
+                ev = os.path.join("/verif/evidence", "%s.json" % pr)
+                saved = open(ev, "rb").read() if os.path.exists(ev) else None
                 rc, o = run(["./check", pr, "quick"], cwd="/verif", timeout=1500)
+                if saved is not None:
+                    shutil.copy(ev, os.path.join(dst, "evidence-%s.json" % pr))
+                    open(ev, "wb").write(saved)
                 viol = [l for l in o.splitlines() if l.startswith("VIOLATION") or l.startswith("KNOWN-FINDING")]
                 checks[pr] = {"exit": rc, "lines": viol, "summary": o.strip().splitlines()[-1] if o.strip() else ""}
                 rp = os.path.join("/verif/replays", "%s-quick-0.json" % pr)
